@@ -690,6 +690,11 @@ class Interp:
             if m is _MISSING:
                 self.fail("TypeError", "object not callable", node)
             return self.call(Bound(m, fn), args, kwargs, node)
+        if isinstance(fn, operator.itemgetter):
+            keys = fn.__reduce__()[1]
+            if len(keys) == 1:
+                return self.getitem(args[0], keys[0], node)
+            return tuple(self.getitem(args[0], k, node) for k in keys)
         if isinstance(fn, property):
             raise Unsupported("calling a property object")
         if fn is None:
